@@ -4,7 +4,7 @@
      C01_fragment_preservation -- semantic preservation of the backend model (Back/IR.v `lower` + the AST
      twin Pres/EmitAst.v of the text emitter Back/Emit.v) with respect to the reference interpreter
      Sem/SyltSem.v (source side) and the Lua 5.3 interpreter model Lua/LuaCore.v (target side), for the
-     computable fragment Pres/Frag.v `frag` (STAGE 4k: int/bool/string expressions, print, definitions, assignments
+     computable fragment Pres/Frag.v `frag` (STAGE 4l: int/bool/string expressions, print, definitions, assignments
      = += -= *=, if/elif/else expressions and statements, loops with break and continue, blocks, inside
      top-level functions; the outer definitions (global values and FUNCTIONS with parameters, `start` among them, in any
      order the resolver gives them),
@@ -1070,6 +1070,76 @@ Proof.
   cbn [r_final] in Hfin. destruct (o_final _); try contradiction. reflexivity.
 Qed.
 
+(* ---- an eighteenth program (stage 4l): mutable variables that hold functions ----
+     (inc, dbl :: fn int -> int; mkc as in the thirteenth program)
+     start :: fn do
+       h := inc   print(h(5))                                   -- 6
+       h = dbl    print(h(5))                                   -- 10
+       g :: fn x: int -> int do h(x) + 1 end   print(g(5))      -- 11: g calls the h of now
+       h = fn y: int -> int do y - 1 end       print(g(5))      -- 5: and sees the assignment
+       k := mkc(0)   print(k())                                 -- 1
+       k = mkc(10)   print(k())  print(k())                     -- 11 12
+     end                                                                                          *)
+Definition asg h v := SAssignment Nop (ERead h sp0) v sp0.
+Definition ex_prog18 : resolved :=
+  mkResolved
+    [mkVar 0 "print" sp0 true Const; mkVar 1 "inc" sp0 true Const; mkVar 2 "dbl" sp0 true Const; mkVar 3 "mkc" sp0 true Const;
+     mkVar 4 "start" sp0 true Const; mkVar 5 "== STACK ==" sp0 false Const;
+     mkVar 6 "a" sp0 false Const; mkVar 7 "b" sp0 false Const; mkVar 8 "n" sp0 false Const; mkVar 9 "c" sp0 false Mutable;
+     mkVar 10 "h" sp0 false Mutable; mkVar 11 "g" sp0 false Const; mkVar 12 "x" sp0 false Const; mkVar 13 "y" sp0 false Const; mkVar 14 "k" sp0 false Mutable]
+    [SExternalDefinition "print" 0 Const (TImplied sp0) sp0;
+     SDefinition "inc" 1 Const (TImplied sp0)
+       (EFunction "lambda" [("a"%string, 6%N, sp0, tint)] tint
+          [SStatementExpression (EBinOp Add (ERead 6 sp0) (EInt 1 sp0) sp0) sp0] false sp0) sp0;
+     SDefinition "dbl" 2 Const (TImplied sp0)
+       (EFunction "lambda" [("b"%string, 7%N, sp0, tint)] tint
+          [SStatementExpression (EBinOp Mul (ERead 7 sp0) (EInt 2 sp0) sp0) sp0] false sp0) sp0;
+     SDefinition "mkc" 3 Const (TImplied sp0)
+       (EFunction "lambda" [("n"%string, 8%N, sp0, tint)] tfn0
+          [SDefinition "c" 9 Mutable tint (ERead 8 sp0) sp0;
+           SStatementExpression
+             (EFunction "lambda" [] tint
+                [SAssignment Add (ERead 9 sp0) (EInt 1 sp0) sp0; SStatementExpression (ERead 9 sp0) sp0] false sp0) sp0] false sp0) sp0;
+     SDefinition "start" 4 Const (TImplied sp0)
+       (EFunction "lambda" [] (TImplied sp0)
+          [SDefinition "h" 10 Mutable (TImplied sp0) (ERead 1 sp0) sp0;
+           SStatementExpression (call 0 [call 10 [EInt 5 sp0]]) sp0;
+           asg 10 (ERead 2 sp0);
+           SStatementExpression (call 0 [call 10 [EInt 5 sp0]]) sp0;
+           SDefinition "g" 11 Const (TImplied sp0)
+             (EFunction "lambda" [("x"%string, 12%N, sp0, tint)] tint
+                [SStatementExpression (EBinOp Add (call 10 [ERead 12 sp0]) (EInt 1 sp0) sp0) sp0] false sp0) sp0;
+           SStatementExpression (call 0 [call 11 [EInt 5 sp0]]) sp0;
+           asg 10 (EFunction "lambda" [("y"%string, 13%N, sp0, tint)] tint
+                     [SStatementExpression (EBinOp Sub (ERead 13 sp0) (EInt 1 sp0) sp0) sp0] false sp0);
+           SStatementExpression (call 0 [call 11 [EInt 5 sp0]]) sp0;
+           SDefinition "k" 14 Mutable (TImplied sp0) (call 3 [EInt 0 sp0]) sp0;
+           SStatementExpression (call 0 [call 14 []]) sp0;
+           asg 14 (call 3 [EInt 10 sp0]);
+           SStatementExpression (call 0 [call 14 []]) sp0;
+           SStatementExpression (call 0 [call 14 []]) sp0]
+          false sp0) sp0].
+
+Example C01_example18_hypotheses :
+  frag 30 ex_prog18 = true /\
+  (exists code, lower 30 ex_prog18 = Ok code) /\
+  SyltSem.run 60 ex_prog18 = mkRun ["6"; "10"; "11"; "5"; "1"; "11"; "12"]%string ODone.
+Proof. split; [vm_compute; reflexivity | split; [eexists; vm_compute; reflexivity | vm_compute; reflexivity]]. Qed.
+
+Theorem C01_function_assignment_by_theorem code :
+  lower 30 ex_prog18 = Ok code ->
+  exists m, forall m', (m <= m')%nat ->
+    let out := LuaCore.run_block Lua53 m' (chunk_ast code) in
+    o_trace out = ["6"; "10"; "11"; "5"; "1"; "11"; "12"]%string /\ o_final out = FDone.
+Proof.
+  intros Hl.
+  assert (Hf : frag 30 ex_prog18 = true) by (vm_compute; reflexivity).
+  assert (Hr : SyltSem.run 60 ex_prog18 = mkRun ["6"; "10"; "11"; "5"; "1"; "11"; "12"]%string ODone) by (vm_compute; reflexivity).
+  destruct (C01_fragment_preservation 30 ex_prog18 code 60 _ Hf Hl Hr I) as (m & Hm).
+  exists m. intros m' Hle. specialize (Hm m' Hle). cbv zeta in *. destruct Hm as [Ht Hfin]. split; [exact Ht|].
+  cbn [r_final] in Hfin. destruct (o_final _); try contradiction. reflexivity.
+Qed.
+
 Print Assumptions C01_fragment_preservation.
 Print Assumptions C01_fragment_preservation_text.
 Print Assumptions C01_activations_own_locals_by_theorem.
@@ -1082,6 +1152,7 @@ Print Assumptions C01_function_constants_by_theorem.
 Print Assumptions C01_computed_callees_by_theorem.
 Print Assumptions C01_ret_function_value_by_theorem.
 Print Assumptions C01_early_ret_function_value_by_theorem.
+Print Assumptions C01_function_assignment_by_theorem.
 
 (* ---- source tie: the hand-written model behind these theorems mirrors the files below; the digests of their
    functions regenerated from /repo on this run equal the reviewed ones (coq/Doc/DocSrcDigest.v).  Any edit of
